@@ -773,6 +773,7 @@ func DrawNoise(rt *rapid.T) am.Noise {
 		Explicit:        rapid.Bool().Draw(rt, "n.explicit"),
 		Comments:        rapid.IntRange(0, 2).Draw(rt, "n.comments") == 0,
 		FullCallType:    rapid.Bool().Draw(rt, "n.fullcalltype"),
+		OverwideInts:    rapid.IntRange(0, 3).Draw(rt, "n.overwideints") == 0,
 		SplitAttrGroups: rapid.IntRange(0, 2).Draw(rt, "n.splitattrgroups") == 0,
 		Indent:          rapid.SampledFrom([]string{"", "\t", "        ", " "}).Draw(rt, "n.indent"),
 	}
